@@ -16,7 +16,7 @@ CLAIMS = {
             'as C01; references handler glue not covered', '§5-C02'),
     'C03': ('proof', 'AST -> record, for ALL rustpython ASTs (real AST types linked with --extern): the whole of decorators.rs (fixture / mark recognisers, name= / scope= / autouse= extraction, usefixtures names incl. nested lists/tuples, indirect parametrize), find_yield_line / find_yield_in_stmt / find_yield_in_expr, contains_yield, extract_docstring, extract_return_type / extract_yielded_type and collect_module_level_names are proved equal to recursive spec functions written from the documented forms; lemmas: exactly the documented decorator forms (look-alikes rejected), keyword extraction ignores non-constants, the two yield searches agree (false before the contains_yield fix). The visitors visit_stmt / visit_assignment_fixture / visit_pytestmark_assignment / all_args are proved against visit_defs / visit_uses (every field of every recorded definition and usage, recording order, class recursion; lemmas: plain functions/classes/nested code record nothing, dependencies = parameters minus self/request in order, name= wins, spans). The comparison with CPython\'s parser is out of reach.',
             'trusted: generated AST type specs (tools/gen_astspec.py), iterator wrapper specs, string rendering uninterpreted', '§5-C03'),
-    'C04': ('proof', 'find_references_for_definition is proved to return exactly the reverse-index bucket of the definition\'s name filtered by "this usage resolves to the definition" (op_refs), find_fixture_definition (go-to-definition) is proved to resolve the first recorded usage under the cursor with the same resolve_usage function; lemmas: an entry is listed iff it resolves to D, unresolved usages are listed nowhere, one list element per index entry, goto on a usage == resolve_usage of that usage. The mirror between usages and usage_by_fixture is proved per mutator (unit index_maint).',
+    'C04': ('proof', 'find_references_for_definition is proved to return exactly the reverse-index bucket of the definition\'s name filtered by "this usage resolves to the definition" (op_refs), find_fixture_definition (go-to-definition) is proved to resolve the first recorded usage under the cursor with the same resolve_usage function; lemmas: an entry is listed iff it resolves to D, unresolved usages are listed nowhere, one list element per index entry, goto on a usage == resolve_usage of that usage. The mirror between usages and usage_by_fixture is proved per mutator (unit index_maint). Unit position: find_fixture_at_position (the name handed to the resolvers by the references handler) == first recorded usage covering the cursor, else the word on a definition line; find_fixture_references == every usage of that name exactly once; find_containing_function == spec over the AST.',
             'trusted: as C01; wf clause unique_at_line assumed; code-lens / call-hierarchy / CLI counts glue not covered', '§5-C04'),
     'C16': ('proof', 'Scope mismatch: detect_scope_mismatches_in_file (after fix 898ebb4) is proved sound AND complete against is_mismatch — a pair (F, D) is reported iff D is the definition the proved resolver selects from F\'s file for one of F\'s dependencies (own name -> overridden parent) and rank(F.scope) > rank(D.scope). Cycles: compute_fixture_cycles is proved SOUND (every reported path is a closed chain of the first-definition name graph, reported on the right fixture) and terminating (lexicographic measure over the explicit DFS stack); completeness and run-independence do not hold on the real code: known findings F-16b (graph from first()) and F-16c (hash-ordered DFS roots).',
             'trusted: as C01; HashMap/HashSet shims; sort/join key model; derive(PartialOrd) via Kani', '§5-C16'),
@@ -34,14 +34,14 @@ CLAIMS = {
             'trusted: as C06; compute_* abstract; get_imported_fixtures memo and eviction not under contract', '§5-C07'),
     'C08': ('proof', 'Order independence is a lemma over the proved operational spec of resolution: two registration orders that only interleave files differently (the only effect a scan schedule has on definitions[name]) give the same answer, provided the three first-come-first-served choices agree (import branch, several plugins, several third-party packages defining the name) — these hypotheses name exactly the order-dependent sites; hash-ordered loops under contract are verified for every enumeration order. Known findings: F-01 (import branch), F-16b (cycle graph).',
             'as C01; the model of a schedule (interleaving of per-file sub-sequences) is taken from the property text', '§5-C08'),
-    'C11': ('proof', 'Function level: every real function under contract (all units, ~70 functions incl. analysis, resolution, references, completion filter, CLI counts, import closure, cycle detection, line/column arithmetic) is verified panic-free for ALL inputs without idealising machine arithmetic: index bounds, usize/u32 overflow and underflow, unwrap on Some only; the byte-slicing string utilities are checked by Kani harnesses on the real file (bounded by string length; labelled bounded in the evidence, not counted as proved for all inputs). Four genuine panics found this way were repaired (F-11a-d).',
+    'C11': ('proof', 'Function level: every real function under contract (all units, ~100 functions incl. AST visitors, position queries, analysis, resolution, references, completion filter, CLI counts, import closure, cycle detection, line/column arithmetic) is verified panic-free for ALL inputs without idealising machine arithmetic: index bounds, usize/u32 overflow and underflow, unwrap on Some only; the byte-slicing string utilities are checked by Kani harnesses on the real file (bounded by string length; labelled bounded in the evidence, not counted as proved for all inputs). Four genuine panics found this way were repaired (F-11a-d).',
             'process liveness, handler bodies in providers/, scanner.rs and rayon isolation are not covered; string functions only up to the stated byte bound', '§5-C11'),
     'C12': ('proof', 'Termination: every loop and recursion of every function under contract (all units) carries a decreases measure that Verus discharges — the conftest walk (path length), all for-loops over vectors / hash enumerations. Lock discipline: the mutators are verified in &mut-receiver form with write operations of the DashMap shim taking &mut self, so Rust\'s borrow checker (run by Verus) rejects a write while a guard of the same map is alive and any self-call while a write guard is alive; a lexical lint covers the remaining pattern (another map touched inside a get_mut guard). Read-under-read nesting is argued in DESIGN, not proved.',
             'no thread model; providers/ and scanner.rs are not under contract', '§5-C12'),
     'C14': ('proof', 'Closure part: get_imported_fixtures / compute_imported_fixtures / is_fixture_imported_in_file (mutually recursive through the visited set) are proved to terminate on every import graph incl. cycles and self imports (measure: readable files not yet visited), to return only names of the import closure of the file (star imports and pytest_plugins entries transitively, explicit imports by name) and, for a top-level call under an exact memo, exactly that closure (DFS completeness); memo discipline proved (only top-level results are stored, keyed by content hash + version). Extraction part (unit imports_extract): extract_fixture_imports / extract_pytest_plugins / is_standard_library_module are proved equal to spec functions over the real AST (top-level import / from-import statements incl. star and relative forms, stdlib filter on the first component, the last non-annotated pytest_plugins assignment with string / list / tuple forms). Module resolution on the file system and venv/plugin discovery are not covered; the composition of the two units is not mechanised.',
             'trusted: parser, module resolution on the file system (abstract), string-operation specs of the extraction unit, finite universe of readable files, HashSet shim', '§5-C14'),
-    'C15': ('proof', 'Line/column arithmetic is proved exactly: build_line_index == the ascending newline positions (+1), get_line_from_offset / get_char_position_from_offset return the unique (line, column) with line_start + column == offset, for every offset (no panic); lemmas: monotone, single-line tokens give start <= end with the token length, round trip; the column is the BYTE count since the line start — equal to the UTF-16 column only for ASCII prefixes: known finding F-15a with a proved counterexample.',
-            'trusted: memchr_iter / binary_search assumed specs; handler-built Range literals and visitor span arithmetic not covered', '§5-C15'),
+    'C15': ('proof', 'Line/column arithmetic is proved exactly: build_line_index == the ascending newline positions (+1), get_line_from_offset / get_char_position_from_offset return the unique (line, column) with line_start + column == offset, for every offset (no panic); lemmas: monotone, single-line tokens give start <= end with the token length, round trip; the column is the BYTE count since the line start — equal to the UTF-16 column only for ASCII prefixes: known finding F-15a with a proved counterexample. Unit visit: every recorded span (definition name, parameters, usefixtures / indirect string content) as a function of the parser ranges; unit position: a cursor is attributed to a usage iff start_char <= character < end_char on its line.',
+            'trusted: memchr_iter / binary_search assumed specs; handler-built Range literals not covered (unit handlers_nav when registered)', '§5-C15'),
     'C10': ('proof', 'Sequential clauses only: the contract of analyze_file_internal gives, for both orders of {scan analyses F from disk, editor analyses F from the buffer}, the resulting entries of F; lemma restore: one further analyze_file(F, t) makes F\'s entries exactly those of t; lemma fresh-keeps-old: analyze_file_fresh on a non-empty index keeps the old entries — known finding F-10 (open then scan yields both).',
             'no thread model: interleavings are out of reach (see DESIGN §2)', '§5-C10'),
     'C20': ('proof', 'compute_definition_usage_counts (including its resolution memo) and get_unused_fixtures are proved exactly: a key (file, name) has a count iff a definition of the name lives in the file, the count is the number of recorded usages whose resolution (the same resolve_usage as go-to-definition / find-references) lands in that file under that name, and the unused list is the sorted listing of the project, non-autouse definitions whose key has count 0; lemmas: listed iff ..., count == |references| when the file defines the name once, result is a function of the index (reproducible). Known finding F-20: same-file redefinitions share a count.',
